@@ -1,3 +1,4 @@
+import Rp2.Props.Tables.Types
 import Rp2.Proofs.PropsA
 import Rp2.Proofs.Props2
 /-! # C03 — exactly the taxable transactions are taxed, each once and in full -/
@@ -24,4 +25,8 @@ theorem each_once_in_full (ctx : Ctx) (es : List Event) (rem : Nat → Nat) (out
     (∀ j e, es[j]? = some e → total (out.filter (fun f => f.ev = 0 + j)) = e.amount) :=
   let r := runS_spec ctx es rem 0 out hpos h
   ⟨r.2.1, r.2.2.1⟩
+/-- tie: `is_earn_type`, the types each table accepts, `is_taxable` / `is_earning` of every (table, type) pair — obtained by
+    running the real constructors — are the model's `isEarn`, `inOk`, `outOk` -/
+theorem type_table_agrees : Gen.types = Tables.allTypes.map Tables.modelRow := Tables.types_agree
+theorem transfer_taxed_iff_fee : Gen.intraType = TxType.move.name ∧ Gen.intraTaxableNoFee = false ∧ Gen.intraTaxableFee = true := Tables.intra_agree
 end Rp2.C03
